@@ -989,6 +989,18 @@ fn k_hex(sc: &J, r: &R) {
             set(r, "to_hex", esc(hx.as_str()));
             set(r, "display", esc(&format!("{}", h)));
             set(r, "debug", esc(&format!("{:?}", h)));
+            // Display under formatter settings: the text is the 64 hex digits whatever width / precision / fill /
+            // alignment / flags the caller's format string carries
+            let specs: Vec<String> = vec![
+                format!("{:.8}", h), format!("{:.0}", h), format!("{:>72}", h), format!("{:0>80}", h), format!("{:<70}", h),
+                format!("{:^66}", h), format!("{:#}", h), format!("{:+}", h), format!("{:100.70}", h), format!("{:1}", h),
+                h.to_string(),
+            ];
+            let all_same = specs.iter().all(|t| t.as_str() == hx.as_str());
+            set(r, "display_specs_same", all_same.to_string());
+            if !all_same {
+                set(r, "display_specs", esc(&specs.join("|")));
+            }
             set_hex(r, "as_bytes", h.as_bytes());
             set_hex(r, "as_slice", h.as_slice());
             let arr: [u8; 32] = h.into();
